@@ -75,7 +75,7 @@ theorem C11_encodeImage_loadable (h : Hdr) (rds : List RawDesc) (data : Bytes)
   · simp [encodeImage]; omega
   · simp only [encodeImage, hp1, List.append_assoc]
     exact slice_take _ _ 128 (by simp)
-  · simp [encodeImage]; omega
+  · intro _; simp [encodeImage]; omega
   · simp only [encodeImage, List.append_assoc]
     rw [slice_skip _ _ _ _ (by simp), hp2]
     simp only [pad_length, Nat.sub_self, List.append_assoc]
